@@ -231,36 +231,25 @@ Proof.
     rewrite starts_with_app, skipn_length_app. simpl. apply orb_true_iff. exact H.
 Qed.
 
-(* no two trailing slashes *)
-Definition slash_ok (cp : str) : Prop := forall q, cp <> q ++ [SLASH; SLASH].
-
 Lemma repeat_snoc {A} (x : A) k : repeat x (S k) = repeat x k ++ [x].
 Proof. induction k; simpl; [reflexivity|]. f_equal. exact IHk. Qed.
 
-(* what the jar checks about paths implies RFC path-match, for cookie paths with at most one
-   trailing slash *)
+(* what the jar checks about paths -- the key path.rstrip("/") is one of the request path's "/"-separated
+   ancestors and the cookie's own path is a prefix of the request path -- implies RFC path-match *)
 Lemma jar_path_sound cp r :
-  slash_ok cp ->
   In (rstrip SLASH cp) (path_prefixes r) ->
-  (length cp <= length r)%nat ->
+  starts_with cp r = true ->
   path_match cp r.
 Proof.
-  intros Hok Hin Hlen.
+  intros Hin Hsw. apply starts_with_spec in Hsw. destruct Hsw as [t Ht].
   destruct (rstrip_spec SLASH cp) as [k Hk].
   set (pk := rstrip SLASH cp) in *.
-  destruct k as [|[|k]].
+  destruct k as [|k].
   - simpl in Hk. rewrite app_nil_r in Hk.
-    apply path_prefixes_In in Hin. destruct Hin as [H|[t H]].
+    apply path_prefixes_In in Hin. destruct Hin as [H|[t' H]].
     + left. congruence.
-    + right. exists (SLASH :: t). split; [rewrite Hk; exact H|]. right. reflexivity.
-  - simpl in Hk.
-    apply path_prefixes_In in Hin. destruct Hin as [H|[t H]].
-    + exfalso. rewrite Hk, <- H, app_length in Hlen. simpl in Hlen. lia.
-    + right. exists t. split.
-      * rewrite Hk, <- app_assoc. exact H.
-      * left. rewrite Hk. apply last_is_app.
-  - exfalso. apply (Hok (pk ++ repeat SLASH k)).
-    rewrite Hk. rewrite repeat_snoc, repeat_snoc, <- !app_assoc. reflexivity.
+    + right. exists (SLASH :: t'). split; [rewrite Hk; exact H|]. right. reflexivity.
+  - right. exists t. split; [exact Ht|]. left. rewrite Hk, repeat_snoc, app_assoc. apply last_is_app.
 Qed.
 
 (* ------------------------------------------------------------ default path *)
